@@ -85,6 +85,70 @@ def bad_contents(rng, good_src):
     return out
 
 
+def surface_mutants(src, rng, n_random):
+    """Semantics-preserving surface rewrites of a valid source (checked: same ast.dump under CPython): a backslash continuation
+    after each keyword / operator kind outside brackets, a newline or a comment inside brackets, trailing comments.
+    Returns [(label, text)]."""
+    import ast
+    import io
+    import keyword
+    import tokenize
+    try:
+        want = ast.dump(ast.parse(src))
+        toks = list(tokenize.generate_tokens(io.StringIO(src).readline))
+    except Exception:
+        return []
+    lines = src.split("\n")
+    depth = 0
+    points = []          # (row, col_after_token, kind, in_brackets)
+    for i, t in enumerate(toks):
+        if t.type == tokenize.OP and t.string in "([{":
+            depth += 1
+        elif t.type == tokenize.OP and t.string in ")]}":
+            depth -= 1
+        nxt = toks[i + 1] if i + 1 < len(toks) else None
+        if nxt is None or nxt.type in (tokenize.NEWLINE, tokenize.NL, tokenize.COMMENT, tokenize.ENDMARKER, tokenize.INDENT, tokenize.DEDENT):
+            continue
+        if nxt.start[0] != t.end[0] or (t.type == tokenize.OP and t.string in ".@"):
+            continue
+        if t.type == tokenize.NAME and keyword.iskeyword(t.string):
+            points.append((t.end[0], t.end[1], "kw_" + t.string, depth > 0))
+        elif t.type == tokenize.OP and t.string in ("=", "+", "-", "*", ",", "==", "->", ":=", "+=", "%", "<", ">", "|", "("):
+            points.append((t.end[0], t.end[1], "op_" + t.string, depth > 0))
+
+    def apply(pts, style):
+        ls = list(lines)
+        for (r, c, kind, inb) in sorted(pts, reverse=True):
+            line = ls[r - 1]
+            ind = line[:len(line) - len(line.lstrip())] + "        "
+            if inb:
+                ins = {0: "\n" + ind, 1: "  # note\n" + ind, 2: " \\\n" + ind}[style % 3]
+            else:
+                ins = " \\\n" + ind
+            ls[r - 1] = line[:c] + ins + line[c:].lstrip(" ")
+        return "\n".join(ls)
+    out = []
+    seen = set()
+    for pt in points:                      # one mutant per kind (first occurrence, outside and inside brackets)
+        key = (pt[2], pt[3])
+        if key in seen:
+            continue
+        seen.add(key)
+        out.append(("cont_%s%s" % (pt[2], "_br" if pt[3] else ""), apply([pt], len(out))))
+    for i in range(n_random):
+        pts = rng.sample(points, min(len(points), rng.randint(2, 6)))
+        pts = list({(p[0]): p for p in pts}.values())          # one insertion per source line
+        out.append(("cont_random_%d" % i, apply(pts, i)))
+    good = []
+    for label, text in out:
+        try:
+            if ast.dump(ast.parse(text)) == want:
+                good.append((label, text))
+        except Exception:
+            pass
+    return good
+
+
 def nested_source(depth, kind):
     lines = ["def deep():"]
     for i in range(depth):
@@ -289,6 +353,46 @@ def main(tier):
                                     + [x for x in (got.get(sec) or []) if x not in role_base[role][sec]][:3]),
                                  dict(rep, section=sec, expected=role_base[role][sec][:20], got=(got.get(sec) or [])[:20]))
                     break
+    # ----- valid Python in unusual surface form: continuations after every keyword/operator kind, newlines and comments inside
+    # brackets (same AST under CPython): no crash, and the per-function results are those of the plain file
+    stats["surface_runs"] = 0
+    here = os.path.dirname(os.path.abspath(__file__))
+    surf_base = {"corpus.py": open(os.path.join(here, "corpus", "c01_syntax.py")).read(), "gen.py": good["good0.py"], "classes.py": CLASS_FILE}
+    surf_args = ["analyze", "--json", "--no-open", "--min-complexity", "1", "--min-severity", "info", "--select", "complexity,deadcode,cbo,lcom", "."]
+
+    def fn_rows(data):
+        cx = (data or {}).get("complexity") or {}
+        return sorted((f["Name"], f["Metrics"]["Complexity"]) for f in cx.get("Functions") or [])
+    for bname, bsrc in surf_base.items():
+        muts = surface_mutants(bsrc, rng, 12 if thorough else 4)
+        bd = os.path.join(root, "surf_%s_base" % bname[:-3])
+        os.makedirs(bd)
+        with open(os.path.join(bd, "m.py"), "w") as f:
+            f.write(bsrc)
+        rb = run_cli(surf_args, bd)
+        base_rows = fn_rows(latest_json(bd))
+        check_run("plain %s" % bname, rb[0], rb[1], rb[2], rb[3], len(bsrc), {"kind": "surface-base", "file": bname})
+
+        def surf_one(item):
+            i, (label, text) = item
+            d = os.path.join(root, "surf_%s_%03d" % (bname[:-3], i))
+            os.makedirs(d)
+            with open(os.path.join(d, "m.py"), "w") as f:
+                f.write(text)
+            r = run_cli(surf_args, d)
+            return label, text, r, latest_json(d)
+        with ThreadPoolExecutor(max_workers=8) as ex:
+            sres = list(ex.map(surf_one, enumerate(muts)))
+        stats.setdefault("surface_kinds", []).extend(sorted({l for l, _ in muts if not l.startswith("cont_random")})[:80])
+        for label, text, r, data in sres:
+            stats["surface_runs"] += 1
+            rep = {"kind": "surface", "base": bname, "label": label, "source": text[:6000]}
+            if check_run("%s of %s" % (label, bname), r[0], r[1], r[2], r[3], len(text), rep):
+                rows = fn_rows(data)
+                if rows != base_rows:
+                    diff = [x for x in base_rows if x not in rows][:3] + [x for x in rows if x not in base_rows][:3]
+                    ck.violation("valid file %s rewritten with %s (same AST under CPython) gets different per-function results: %s" % (bname, label, diff),
+                                 dict(rep, expected=base_rows[:40], got=rows[:40]))
     # ----- every format is written for a project with a bad file
     fd = make_project("formats", {"zz_bad.py": b"def f(:\n"})
     for fmt in ("--json", "--yaml", "--csv", "--html"):
@@ -352,12 +456,13 @@ def main(tier):
                              {"kind": "depth-time", "micros": stats["complete_dag_micros"]})
     ck.samples = [{"label": l, "content_head": c[:60].decode("latin-1")} for l, c in bads[:6]]
     ck.cov.update({
-        "evaluations": stats["mixed_runs"] + stats["alone_runs"] + stats["role_runs"] + stats["format_runs"] + stats["nesting_runs"] + stats["depth_graphs"],
+        "evaluations": stats["mixed_runs"] + stats["alone_runs"] + stats["role_runs"] + stats["surface_runs"] + stats["format_runs"] + stats["nesting_runs"] + stats["depth_graphs"],
         "distinct_nontrivial": stats["bad_inputs"],
         "rule": "malformed stream (syntax errors, truncations, bit flips, binary, encodings, BOM, CR/CRLF, very long line, deep parentheses) each "
                 "analysed alone and mixed into a project of 5 good files (all analyses), report sections of the good files compared with the "
                 "baseline; malformed content in every role of a package project (package __init__ with re-exports, imported module, sub-package "
-                "__init__, leaf, importer) compared with the project without that file; 4 output formats; nesting depth 40..320 of if/for/try; calculateMaxDepth vs its Coq model on random graphs. "
+                "__init__, leaf, importer) compared with the project without that file; valid sources rewritten with a continuation after every keyword/operator kind and "
+                "newlines/comments inside brackets (same AST under CPython) must not crash and must give the per-function results of the plain file; 4 output formats; nesting depth 40..320 of if/for/try; calculateMaxDepth vs its Coq model on random graphs. "
                 "This stream is evidence for the un-modelled part (tree-sitter, Go runtime, OS); it is a test, not a proof.",
         "input_distribution": stats, "disagreements_checked": len(ck.violations),
     })
